@@ -9,28 +9,28 @@ HERE = os.path.dirname(os.path.dirname(os.path.abspath(__file__)))
 PY = "/venv/bin/python"
 
 CLAIMS = {
-    "C02": ("registry model (class statements evaluated symbolically; its semantics validated by interpreting Rules/Check registration on stub classes), emitter exhaustiveness over resolved emission sites with value sets, CFG reachability under constant history tests, contradiction rule on the last-element protocol of state lists ; the check that emits ASSIGN_IN_CONTROL interpreted on stub conditions of one to three lines (R-2.7); File.__init__ interpreted on multi-dot names for the rules bound to a kind of file (R-2.10)",
+    "C02": ("registry model (class statements evaluated symbolically; its semantics validated by interpreting Rules/Check registration on stub classes), emitter exhaustiveness over resolved emission sites with value sets, CFG reachability under constant history tests, contradiction rule on the last-element protocol of state lists ; the check that emits ASSIGN_IN_CONTROL interpreted on stub conditions of one to three lines (R-2.7); File.__init__ interpreted on multi-dot names for the rules bound to a kind of file (R-2.10); a declaration `char buf[<size>];` through the primaries and CheckVariableIndent for variable and constant size spellings (R-2.11); `int <name>;` at file level through the primaries and CheckGlobalNaming (R-2.12)",
             "partial: every enforced (emitter, code) pair of the frozen table has a live, reachable emission site in a check the registry will run in every statement kind of the frozen slot / history tables, and the dispatcher reaches dependants; NOT decided: that the emitting condition fires for every program/site (run-time).",
             "§4.2"),
-    "C03": ("comparison normalisation to 'measure > T' with measure-kind offsets on dominating test atoms, counter discipline, effect / ordering / who-may-call rule for the line-accumulating Scope.outer(), exhaustive evaluation of the tab-stop code for every start column ; both comment sub-parsers interpreted against a line-based tab-stop model (R-3.7); tab stops decided on the whole pop() in every reading mode (R-3.3)",
+    "C03": ("comparison normalisation to 'measure > T' with measure-kind offsets on dominating test atoms, counter discipline, effect / ordering / who-may-call rule for the line-accumulating Scope.outer(), exhaustive evaluation of the tab-stop code for every start column ; both comment sub-parsers interpreted against a line-based tab-stop model (R-3.7); tab stops decided on the whole pop() in every reading mode (R-3.3); the literal sub-parsers against the same tab-stop model (R-3.10); CheckLineCount interpreted in every scope a function body can contain (R-3.11)",
             "partial: each of the five limits is compared with exactly the threshold its measured quantity demands, counters have one unit increment at the right place, lines are accumulated once and after the closing line is counted, tab stops are 4 columns; NOT decided: that the measured quantity is the Norm's in every context.",
             "§4.3"),
-    "C04": ("interpretation of __main__.main and of the Errors / formatter classes by the analyser's own evaluator over a stub world (virtual file tree, argparse / sys.exit / print stubs, stub Lexer and Registry), exhaustive over all sequences of <= 3 files of 4 classes (+ pairs of 6) and all add sequences <= 3",
+    "C04": ("interpretation of __main__.main and of the Errors / formatter classes by the analyser's own evaluator over a stub world (virtual file tree, argparse / sys.exit / print stubs, stub Lexer and Registry), exhaustive over all sequences of <= 3 files of 4 classes (+ pairs of 6) and all add sequences <= 3; a file whose text cannot be read among the fatal files of the abstract runs",
             "exit status / verdict agreement in main and the formatters: one verdict per file in order from errors.status, Notices ignored, exit status non-zero iff some file has an Error (or a fatal file), independent of order and count, fatal files named and never OK, empty selection handled. Decided on the analyser's interpreter over a finite scenario set, not by running norminette.",
             "§4.4"),
-    "C05": ("CFG all-paths return shape, exception-escape over the call graph with handler scopes and head-verified pops, SCC recursion table with validated bounded cycles, Tri-valued loop evaluation in the past-the-end state, progress must-pass-through with boolean-flag constant propagation, helper / table-key totality (guards, else interpretation), token-text nullability, local-list indexing, exponential ambiguity of every regular expression (squared automaton) ; annotated types of everything ordered while diagnostics are sorted (R-5.13); arity closure of reflective dispatch (R-5.14); get_next_token interpreted on every prefix of a fragment family inside a step budget (R-5.17)",
+    "C05": ("CFG all-paths return shape, exception-escape over the call graph with handler scopes and head-verified pops, SCC recursion table with validated bounded cycles, Tri-valued loop evaluation in the past-the-end state, progress must-pass-through with boolean-flag constant propagation, helper / table-key totality (guards, else interpretation), token-text nullability, local-list indexing, exponential ambiguity of every regular expression (squared automaton) ; annotated types of everything ordered while diagnostics are sorted (R-5.13); arity closure of reflective dispatch (R-5.14); get_next_token interpreted on every prefix of a fragment family inside a step budget (R-5.17); abstract runs of __main__ on single fatal files of every error class (R-5.18)",
             "partial: eleven termination / no-internal-error disciplines (each a necessary condition with a concrete crashing or hanging input when broken); NOT decided: None-token dereferences in general (needs a type checker).",
             "§4.5"),
     "C06": ("global-mutation and alias analysis over module / class-level mutables and default arguments, one-shot iterators, class-state discipline, freshness by reaching definitions, acquire/restore pairing on the CFG incl. exceptional exits, registry order determinism (registration interpreted under permuted class orders) ; memoised results never mutated by a user (R-6.8)",
             "state isolation and order independence: no shared mutable is mutated, per-file objects are fresh, primaries' priorities are distinct and lists are sorted, process-global settings are restored on all exits, no ambient inputs in the analysis path.",
             "§4.6"),
-    "C07": ("who-may-call / who-may-write ownership over resolved references, Registry.run interpreted on all stub files of <= 4 lines (typestate abstract interpretation as fall-back), handler coverage of registry.run, no list shrunk while iterated in place ; IsPreprocessorStatement.run interpreted for every token kind the lexer can produce: a directive claims one line (R-7.5); unrecognisable last-line fragments offered to the primaries in priority order (R-7.8)",
+    "C07": ("who-may-call / who-may-write ownership over resolved references, Registry.run interpreted on all stub files of <= 4 lines (typestate abstract interpretation as fall-back), handler coverage of registry.run, no list shrunk while iterated in place ; IsPreprocessorStatement.run interpreted for every token kind the lexer can produce: a directive claims one line (R-7.5); unrecognisable last-line fragments offered to the primaries in priority order (R-7.8); ownership of the statement record (R-7.9)",
             "partial: only the registry consumes tokens (by front slicing, >= 1 per iteration), unrecognised tokens lead to CParsingError on every path in normal mode and are caught by main's per-file handler, no loop skips elements by mutating what it iterates; NOT decided: which token sequences a primary accepts (acceptance semantics).",
             "§4.7"),
     "C08": ("value sets of emitted codes vs the folded catalogue (dead sites validated by CFG path facts), Error typestate (created -> positioned -> added), comparators and the sorted view interpreted over order types, both reports produced on stub files and compared, print discipline; Errors.add interpreted on containers of up to 5000 diagnostics (R-8.8)",
             "catalogue membership and text, levels, every diagnostic positioned, Highlight/Error comparators equal the ascending lexicographic key order, both formatters describe the same files, verdicts and diagnostics in the same order, nothing but main prints in normal mode.",
             "§4.8"),
-    "C09": ("ownership of position state, capture-before-consume def-use in each sub-parser, staleness of position samples, pop / get_next_token interpreted at line breaks and splices against an independent raw-text position model, tab stops ; cursor-cache coherence (R-9.8), comment layout (R-9.9), bad-lexeme skip width (R-9.4)",
+    "C09": ("ownership of position state, capture-before-consume def-use in each sub-parser, staleness of position samples, pop / get_next_token interpreted at line breaks and splices against an independent raw-text position model, tab stops ; cursor-cache coherence (R-9.8), comment layout (R-9.9), bad-lexeme skip width (R-9.4); the literal sub-parsers against a line-based tab-stop model, escapes included (R-9.10); escape notices at the character behind the backslash in every spelling (R-9.11)",
             "partial: who writes position state, when it is sampled, and the bookkeeping at line breaks, splices and tabs; NOT decided: the full arithmetic of pop for every layout.",
             "§4.9"),
     "C10": ("dataflow from every pop() to the returned Token value / table key (else the sub-parser interpreted on every one-character input), raw advances accounted, pop-count discipline (origin of every non-constant times=), injectivity and totality of the folded lexer tables, get_next_token interpreted with logging stub parsers ; cursor-cache coherence (R-10.7); value-less tokens only for the exact spelling of their kind (R-10.8); round trip per call of get_next_token on an exhaustive small domain against an independent normaliser (R-10.11)",
@@ -39,28 +39,28 @@ CLAIMS = {
     "C11": ("constant folding of suffix / prefix / digit tables (through imports) vs reference sets of C11 6.4.4, escapes and digit buckets by interpreting pop / parse_integer_literal on one representative per letter and (prefix, digit) pair, emitter exhaustiveness scoped to sub-parsers, regex-AST hygiene and alphabet, language intersection for digit-less exponents, digit capacity of the escape branches ; termination diagnostics of character / string literals against an independent scanner (R-11.7); get_next_token interpreted on a mantissa x exponent x suffix domain against an independent C11 6.4.4 recogniser (R-11.10)",
             "partial: the tables contain what C and the listed extensions require, every malformed family has its emitter in the right sub-parser, numeric patterns cannot swallow a neighbouring character, one token per literal, parser order; NOT decided: group assignment of the numeric regexes under re's priority semantics (the 0xb3ba class).",
             "§4.11"),
-    "C12": ("who-reads-raw-characters analysis (flow-sensitive 'translated' judgement by reaching definitions), translation order on the CFG, peek / pop / parse_operator / parse_brackets interpreted on every key, every respelling and every short left context, sibling agreement of the splice spellings (tests and patterns), maximal munch over the operator table, cache coherence of cursor-derived Lexer state; peek() on every key followed by every short right context",
+    "C12": ("who-reads-raw-characters analysis (flow-sensitive 'translated' judgement by reaching definitions), translation order on the CFG, peek / pop / parse_operator / parse_brackets interpreted on every key, every respelling and every short left context, sibling agreement of the splice spellings (tests and patterns), maximal munch over the operator table, cache coherence of cursor-derived Lexer state; peek() on every key followed by every short right context; brace lines in every spelling through the tree's lexer, the primaries and CheckBrace (R-12.7)",
             "partial: translation precedes every punctuator decision and does not depend on the left context, both splice spellings are handled wherever one is, longest operators win, tables are the standard ones, no stale cursor-derived state; NOT decided: equality of whole token sequences under arbitrary respelling.",
             "§4.12"),
-    "C13": ("regular-language inclusion / emptiness: re._parser AST of the header pattern -> NFA, product with the template family and with each structurally mutated family; the two-flag machine interpreted over all sequences <= 5 of abstract statements; Errors.add interpreted on containers of up to 5000 diagnostics (R-13.5)",
+    "C13": ("regular-language inclusion / emptiness: re._parser AST of the header pattern -> NFA, product with the template family and with each structurally mutated family; the two-flag machine interpreted over all sequences <= 5 of abstract statements; Errors.add interpreted on containers of up to 5000 diagnostics (R-13.5); Context.__init__ interpreted with every option word its code mentions (R-13.6)",
             "the for-all over header field values is decided on the regex itself: every member of the stdheader template family is accepted and every listed structural mutation is rejected (emptiness of the intersection), and the two-flag machine emits INVALID_HEADER at most once and at least once when no valid header leads the file.",
             "§4.13"),
-    "C14": ("def-use derivation chain of the expected guard symbol, dominance of the '.h' test over every HEADER_PROT_* emission, emitter per guard defect (dominating atoms; run() interpreted on stub #ifndef / #endif statements as rescue), state ownership, open/close pairing of the preprocessor state the guard check reads ; macro lookup by equality (R-14.7); what may follow the closing #endif (R-14.8)",
+    "C14": ("def-use derivation chain of the expected guard symbol, dominance of the '.h' test over every HEADER_PROT_* emission, emitter per guard defect (dominating atoms; run() interpreted on stub #ifndef / #endif statements as rescue), state ownership, open/close pairing of the preprocessor state the guard check reads ; macro lookup by equality (R-14.7); what may follow the closing #endif (R-14.8); shared-state discipline of R-6.1 restated for the guard check (R-14.11)",
             "partial: the expected symbol derives from File.basename through upper() and replace('.', '_') only, .c files cannot reach any guard diagnostic, each listed guard defect has a handler, nesting-scoped state is restored at #endif; NOT decided: that the handlers fire for every body.",
             "§4.14"),
-    "C15": ("__main__ interpreted over virtual directory trees and argument lists (glob / pathlib / git check-ignore stubs): analysed files, rejection messages, exit status and verdict names compared with what the property prescribes; File(path) interpreted",
+    "C15": ("__main__ interpreted over virtual directory trees and argument lists (glob / pathlib / git check-ignore stubs): analysed files, rejection messages, exit status and verdict names compared with what the property prescribes; File(path) interpreted; strict parsing of argv (R-15.6)",
             "partial: exactly the named / discovered .c and .h files are analysed once per mention, wrong suffixes rejected with a message, missing paths exit non-zero, the current-directory default only without arguments, --use-gitignore only removes; decided on the analyser's interpreter over the listed virtual trees, NOT over real directory trees.",
             "§4.15"),
     "C16": ("differential interpretation of __main__ in the stub world: each declared option toggled on the plain command line and next to -R CheckDefine -d must leave the pipeline record unchanged apart from its one allowed effect; formatters rendered twice (views); Context.__init__ interpreted; CFG regions that run only for some debug levels",
             "debug reaches printing and fatality only, -R reaches only skip_define and only the #define-value diagnostics, presentation options reach only the formatter, formatters are views, inline and file content share one pipeline and one text.",
             "§4.16"),
-    "C17": ("token-value taint with CFG-valid kind guards, a re-validated precondition table (navigation agreement between primaries and checks) and role classification of every read of token text in rules/ and context.py ; memoised results never mutated by a user (R-17.4); the literal sub-parsers interpreted against a line-based tab-stop model (R-17.7)",
+    "C17": ("token-value taint with CFG-valid kind guards, a re-validated precondition table (navigation agreement between primaries and checks) and role classification of every read of token text in rules/ and context.py ; memoised results never mutated by a user (R-17.4); the literal sub-parsers interpreted against a line-based tab-stop model (R-17.7); both literal sub-parsers on every short body over the replacement alphabet: diagnostics independent of the text (R-17.8)",
             "every read of a token's text whose kind may be COMMENT/MULT_COMMENT/STRING/CHAR_CONST has role WIDTH, MESSAGE, TRUTH or an inert comparison (plus the two exceptions the property itself makes: 42 header, #include argument); literal / comment sub-parsers build only tokens of their own kind.",
             "§4.17"),
     "C18": ("token-value taint (identifier kinds) with a closed list of naming-class predicates, dispatch on constant tables, comparisons between recorded identifiers; keyword table subset of C keywords (exact membership by lexer simulation); lexer state after each spelling parse_identifier mentions compared with a neutral name",
             "identifier text reaches only naming-class predicates, width, the closed special-name list, dispatch on constant keys, comparisons between identifiers, the name stores and messages; the keyword table swallows only C reserved words.",
             "§4.18"),
-    "C19": ("taint on the line coordinate (translation invariance: difference / same-line / message uses only), ownership of header state, dominance of the comment / empty early return over scope stores, contradiction rule on history look-back loops, counters ; a comment inserted at a top-level point gets no diagnostic of its own from CheckComment / CheckHeader (R-19.6)",
+    "C19": ("taint on the line coordinate (translation invariance: difference / same-line / message uses only), ownership of header state, dominance of the comment / empty early return over scope stores, contradiction rule on history look-back loops, counters ; a comment inserted at a top-level point gets no diagnostic of its own from CheckComment / CheckHeader (R-19.6); head line, optional comments and brace line through the primaries: same body scope (R-19.8)",
             "partial: line numbers are opaque to rules, header state is isolated in CheckHeader, comments and empty lines do not move the scope or the global alignment memory, successive look-back loops agree about comments; NOT decided: every history look-back across an insertion.",
             "§4.19"),
 }
